@@ -12,7 +12,7 @@ META = {
             "non-zero dialer port; remove_listener is true iff the transport has that listener, frees the port at once (and only "
             "its own), ListenerClosed follows exactly once after all accepted connections were handed out; dropping a transport / "
             "the dialer's channel frees the ports; poll is Pending only if nothing is due; bytes written on one end arrive in "
-            "order exactly once on the other, Pending while the writer lives, EOF after.",
+            "order exactly once on the other, Pending while the writer lives, EOF after; a write succeeds iff the other end still exists.",
     "note": "Extension component (not in properties.jsonl). One process, one thread: the hub's mutex is not contended. "
             "Back-pressure of the 4096-message channel is not reached.",
     "design_ref": "ext/X02",
